@@ -17,7 +17,9 @@ for sid in sorted(os.listdir(os.path.join(V, "seeded"))):
         results[sid] = dict(property=prop, outcome="property not claimed")
         continue
     wt = "/tmp/seedconf/%s" % prop
-    subprocess.run("git checkout -q -- flumine && git apply %s/patch.diff" % d, cwd=wt, shell=True, check=True)
+    if subprocess.run("git checkout -q -- flumine && git apply %s/patch.diff" % d, cwd=wt, shell=True).returncode != 0:
+        # a change written against a later /repo commit: bring the scratch worktree to /repo's HEAD first
+        subprocess.run("git checkout -q --detach $(git -C /repo rev-parse HEAD) && git checkout -q -- flumine && git apply %s/patch.diff" % d, cwd=wt, shell=True, check=True)
     t = time.time()
     import signal
     proc = subprocess.Popen(["./check", prop, "--repo", wt, "--no-evidence"], cwd=V, stdout=subprocess.PIPE, stderr=subprocess.STDOUT, text=True, start_new_session=True)
